@@ -8,4 +8,4 @@ import "github.com/cloudflare/circl/verifyield"
 // copies of /repo and circl.
 const Instrumented = true
 
-func InstallYieldHook() { verifyield.Hook = Yield }
+func InstallYieldHook() { verifyield.Hook = Yield; verifyield.NoYieldHook = NoYield }
